@@ -435,6 +435,52 @@ def frame_check_sweep(rep, rng, n):
                                          "invalid_rows_kept": [i for i in got if i not in want]})
 
 
+def unique_groups_sweep(rep, rng, n):
+    """several joint-uniqueness groups under drop_invalid_rows: the survivors are the rows outside every violated group
+    (Lean `dupGroups`, driver C01), in their original order, and satisfy the schema"""
+    import warnings
+    import pandera as pa
+    names = ["a", "b", "c", "d"]
+    cases = []
+    for _ in range(n):
+        nrows = rng.randint(1, 6)
+        cols = [{"name": x, "dtype": "int64", "vals": [rng.choice(A.POOL["int64"][:3]) for _ in range(nrows)]}
+                for x in names if rng.random() < 0.8]
+        groups = [rng.sample(names, rng.randint(1, 2)) for _ in range(rng.randint(2, 3))]
+        fr = {"cols": cols, "index": A.default_index(nrows), "nrows": nrows}
+        cases.append({"entries": "unique-groups", "groups": groups, "keep": rng.choice(["first", "last", "none"]), "frame": fr})
+    ans = run_driver("C01", [{"mode": "uniqueGroups", "groups": c["groups"], "keep": c["keep"], "frame": c["frame"]} for c in cases])
+    for c, a in zip(cases, ans):
+        if "error" in a:
+            rep.correspondence_break(c, "driver: " + a["error"])
+            continue
+        bad = sorted({i for _, rows in a["dups"] for i in rows})
+        want = [i for i in range(c["frame"]["nrows"]) if i not in bad]
+        df = A.frame_of(c["frame"])
+        mk = lambda **kw: pa.DataFrameSchema({x: pa.Column(None, required=False) for x in names}, unique=c["groups"],  # noqa: E731
+                                             report_duplicates=A.KEEP[c["keep"]], **kw)
+        with warnings.catch_warnings():
+            warnings.simplefilter("ignore")
+            try:
+                out = mk(drop_invalid_rows=True).validate(df.copy(), lazy=True)
+            except Exception as e:  # noqa: BLE001
+                rep.property_failure(c, f"unique groups under drop_invalid_rows: {type(e).__name__}: {str(e)[:100]} "
+                                        f"(every violation is attributable to rows)")
+                continue
+        rep.evaluations += 1
+        rep.count(f"unique-groups:{len(a['dups'])}-violated:{'dropped' if bad else 'nothing-to-drop'}")
+        got = [int(i) for i in out.index]
+        if got != want:
+            rep.property_failure(c, f"unique={c['groups']}: surviving rows {got}, the rows outside every violated group are {want}")
+            continue
+        if c["keep"] == "none":
+            # all members of a duplicated set are removed: what is left must satisfy the schema
+            try:
+                mk().validate(out, lazy=True)
+            except Exception as e:  # noqa: BLE001
+                rep.property_failure(c, f"unique={c['groups']}: the returned frame is rejected by the same schema: {str(e)[:80]}")
+
+
 def entry_region(c, a, missing, extra):
     """K_C11_nullDuplicates only: a kept row whose duplicated value is null"""
     if missing or not extra:
@@ -463,6 +509,7 @@ def run(tier, replay=None):
             run_entries(rep, rng_for(PROP, "entries"), 300)
             extension_sweep(rep)
             frame_check_sweep(rep, rng_for(PROP, "frame-checks"), 200)
+            unique_groups_sweep(rep, rng_for(PROP, "unique-groups"), 200)
         else:
             run_cases(rep, [case])
         return rep.finish(rule="replay")
@@ -472,6 +519,7 @@ def run(tier, replay=None):
     run_entries(rep, rng_for(PROP, "entries"), 300 if tier == "quick" else 6000)
     extension_sweep(rep)
     frame_check_sweep(rep, rng_for(PROP, "frame-checks"), 200 if tier == "quick" else 4000)
+    unique_groups_sweep(rep, rng_for(PROP, "unique-groups"), 200 if tier == "quick" else 4000)
     return rep.finish(
         rule="C03's generator with drop_invalid_rows=True, lazy validation and a unique index (int and str labels, "
              "labels with quotes): surviving positions (recovered through the labels) vs the positions on which every "
